@@ -35,9 +35,20 @@ def strategy(tier):
     return st.one_of(synthetic(tier), G.gcm_case(tier, algos=("fast", "motifs")))
 
 
+def enumerated(tier, seed):
+    """one large generator-produced edge list (300000 rows): block / chunk boundaries of a conversion lie far beyond
+    the generated sizes."""
+    mo = {"kind": "clique", "m": 2, "edges": [], "ret": "list", "orbit_sizes": [2], "cols": [0], "names": "2-clique"}
+    return [{"algo": "fast", "path": "class", "N": 150000, "big": 4, "motifs": [mo], "rng": {"mode": "seed", "seed": seed}}]
+
+
+ENUM_CHUNK = 1
+
+
 def snapshot(Gx):
-    return ({n: copy.deepcopy(d) for n, d in Gx.nodes(data=True)},
-            {frozenset((u, v)): copy.deepcopy(d) for u, v, d in Gx.edges(data=True)})
+    cp = copy.deepcopy if Gx.number_of_edges() < 20000 else dict  # attribute values are immutable scalars / tuples
+    return ({n: cp(d) for n, d in Gx.nodes(data=True)},
+            {frozenset((u, v)): cp(d) for u, v, d in Gx.edges(data=True)})
 
 
 def check(case):
@@ -51,8 +62,11 @@ def check(case):
         el.motif_id = [i for _, _, _, i in case["rows"]]
         classes = {"synthetic"}
     else:
+        if case.get("big") and "jds" not in case:
+            case = {**case, "jds": [[case["big"]]] * case["N"]}
         for mo in case["motifs"]:
             mo["etype"] = "tuple"  # edge entries are documented as tuples; list-typed pairs are outside this property
+            mo.pop("return_argument", None)
         g, cls, el, journal, jds, pristine = G.generate(case)
         classes = {"generated", "algo_" + case["algo"]}
         wf = (len(el.edge_list) == len(el.topologies) == len(el.motif_id)) and all(
@@ -79,7 +93,9 @@ def check(case):
         pairs.setdefault(frozenset(e), []).append((n, i))
     got_pairs = {frozenset((u, v)) for u, v in Gx.edges()}
     if got_pairs != set(pairs):
-        raise Violation("fwd-edge-set", f"network pairs {sorted(map(sorted, got_pairs))} != edge list pairs {sorted(map(sorted, pairs))}")
+        diff = sorted(map(sorted, got_pairs ^ set(pairs)))
+        raise Violation("fwd-edge-set", f"network pairs differ from the edge list pairs in {len(diff)} pair(s), e.g. {diff[:6]} "
+                                        f"({len(got_pairs)} network edges, {len(pairs)} distinct listed pairs)")
     for u, v, d in Gx.edges(data=True):
         cands = pairs[frozenset((u, v))]
         tup = (d.get(NN.TOPOLOGY), d.get(NN.MOTIF_IDS))
